@@ -167,7 +167,7 @@ func (in *Interp) intrinsic(fn *ssa.Function, name string, args []V, initCtx boo
 				}
 				return nil, true
 			}
-			if in.ex.checkWith(b.S) == "unsat" {
+			if in.ex.assumeCheck(b.S) == "unsat" {
 				panic(pathEnd{"infeasible", "assume"})
 			}
 			in.ex.assume(b.S)
